@@ -14,6 +14,7 @@ import (
 	"context"
 	"encoding/json"
 	"fmt"
+	"io"
 	"reflect"
 	"testing"
 
@@ -232,8 +233,39 @@ var (
 	c18HeldChecks  int
 )
 
+// c18Frag delivers its bytes in pieces (1 byte, then halves of what is left): a stream reader may return fewer bytes
+// than asked for, and a decoder must not mistake a short read for the whole identifier.
+type c18Frag struct {
+	b []byte
+	n int
+}
+
+func (f *c18Frag) Read(p []byte) (int, error) {
+	if len(f.b) == 0 {
+		return 0, io.EOF
+	}
+	k := 1
+	if f.n > 0 {
+		k = (len(f.b) + 1) / 2
+	}
+	f.n++
+	if k > len(p) {
+		k = len(p)
+	}
+	copy(p, f.b[:k])
+	f.b = f.b[k:]
+	return k, nil
+}
+
+var c18FragFlip bool
+
 func c18ReadFrom(kind string, bs []byte) (ok bool) {
-	r := bytes.NewReader(bs)
+	var r io.Reader = bytes.NewReader(bs)
+	// every second call reads from a fragmenting reader: the verdict and the value must be the same
+	c18FragFlip = !c18FragFlip
+	if c18FragFlip {
+		r = &c18Frag{b: append([]byte{}, bs...)}
+	}
 	var err error
 	var dec c18Marshaler
 	switch kind {
